@@ -1,0 +1,24 @@
+//go:build verif
+
+// Machine-checked contracts for package location (comment-only; see /verif/DESIGN.md).
+
+package location
+
+// Line/column from the list of line-terminator matches m (ascending, as returned by
+// FindAllIndex for the pattern \r\n|[\n\r]): with n = number of matches that start before
+// position, Line = 1 + n and Column = position + 1 - (end of the last such match, or 0).
+// The result's own Line serves as the witness for n, so no existential is needed.
+//@ func GetLocation
+//@   props C18
+//@   nosafety
+//@   assigns nothing
+//@   ensures s == nil ==> result.Line == 1 && result.Column == position + 1
+//@   ensures 0 <= result.Line - 1 && result.Line - 1 <= len(matches)
+//@   ensures forall k in 0..result.Line-1: matches[k][0] < position
+//@   ensures result.Line - 1 == len(matches) || matches[result.Line-1][0] >= position
+//@   ensures result.Line == 1 ==> result.Column == position + 1
+//@   ensures result.Line > 1 && s != nil ==> result.Column == position + 1 - matches[result.Line-2][1]
+//@   loop 1 invariant line == rangeindex + 2 && rangeindex + 1 <= len(matches)
+//@   loop 1 invariant forall k in 0..rangeindex+1: matches[k][0] < position
+//@   loop 1 invariant rangeindex == -1 ==> column == position + 1
+//@   loop 1 invariant rangeindex >= 0 && s != nil ==> column == position + 1 - matches[rangeindex][1]
